@@ -5,7 +5,7 @@ TARGET = dict(
           "granularity), plane_read/plane_write windows (boundary-biased offsets incl. negative, below -size, beyond the end, misaligned; sizes incl. -1), ubuf_pic_resize (crop, extend into "
           "margins, beyond margins, misaligned), dup, ubuf_pic_copy/replace to either manager, fill, free; after every operation every handle/plane: full window mapped, every row inside the "
           "exact umem area, ownership stamps (no two positions share an octet), content equal to the model of still-visible pixels. "
-          "non-trivial(pic) = format with subsampling or macropixel > 1, non-zero margins, and >= 2 accepted resizes on one handle incl. an extension. "
+          "ubuf_pic_plane_clear / ubuf_pic_plane_set_color (one-octet and macropixel-sized patterns) on in-domain windows of single-owner pictures: every octet outside the window keeps its value, nothing outside the allocation is written; non-trivial(pic) = format with subsampling or macropixel > 1, non-zero margins, and >= 2 accepted resizes on one handle incl. an extension. "
           "sound: sample size 1-8 x 1-8 planes x align 0/1/16/32/64 x two managers (ubuf_sound_mem_mgr_alloc / from flow def) x <=40 operations: alloc, plane_read/write windows, "
           "ubuf_sound_resize, dup, ubuf_sound_copy/replace, ubuf_sound_interleave, fill, free, same per-step oracle. "
           "non-trivial(sound) = (sample size > 1 or >= 2 planes) and >= 2 accepted resizes/copies with a non-zero offset on the way to a verified window; "
